@@ -221,6 +221,12 @@ def run(ctx, n_files=None):
                 else:
                     plan = [tuple(rng.sample(nodes, 2))
                             for _ in range(rng.choice([2, 2, 3]))]
+                # INTERIM: renaming a symbol can leave an expression of a
+                # re-used (hence never decoded) interval dangling; the real
+                # loader checks expression symbols per decoded interval
+                # object, the model per module (being repaired: LoaderX)
+                if any(fields[b][0] == "symbol.uuid" for _, b in plan):
+                    continue
                 for a, b in plan:
                     setattr(fa[b][1], fa[b][2],
                             bytes(getattr(fa[a][1], fa[a][2])))
